@@ -1085,5 +1085,129 @@ Proof.
   - intros L. apply advance_fuel_enough; sproj; lia.
   - exists s', f'. split; [assumption|]. assert (now s' = target) by lia.
     split; [|split; [apply CH_counters; assumption|split; assumption]].
-    eapply PH_TInv; [eassumption|rewrite K'; lia|rewrite K'; assumption].
+    pose proof (i_cnow s I). eapply PH_TInv; [eassumption|rewrite K'; lia|rewrite K'; assumption].
+Qed.
+
+(** ** next_expiry *)
+Lemma next_expiry_ok s : TInv s ->
+  match queue s with
+  | [] => next_expiry s = Some None
+  | e :: _ => next_expiry s = Some (Some (inst (Tof (now s) (e_wt e))))
+  end.
+Proof.
+  intros I. unfold next_expiry. destruct (queue s) as [|e q] eqn:Eq; [reflexivity|].
+  destruct (now_facts _ _ _ (TInv_PH s I)) as [Hnow Hlow].
+  pose proof (i_entries s I) as F. rewrite Eq in F. inversion F as [|? ? He _]; subst.
+  destruct He as (Hw & _ & Hb & _). pose proof (Tof_spec (now s) (e_wt e) ltac:(lia) Hw) as [R _].
+  rewrite wraptime_time_spec by (unfold M32 in *; lia). cbn [obind].
+  rewrite (unwrap_Tof (now s) (e_wt e)) by (try assumption; lia).
+  rewrite t_instant_spec by (unfold WIN in *; lia). reflexivity.
+Qed.
+
+(** * The safety / structure theorem *)
+Lemma vget_nil i : vget [] i = None.
+Proof. unfold vget. destruct (i <? 0); [reflexivity|]. destruct (Z.to_nat i); reflexivity. Qed.
+
+Lemma TInv_init : TInv t_init.
+Proof.
+  constructor; cbn [t_init now queue var var_free seq cnow length].
+  - unfold TMAX. lia.
+  - reflexivity.
+  - unfold M32. lia.
+  - constructor.
+  - constructor.
+  - intros i vs H. rewrite vget_nil in H. discriminate.
+  - intros e [].
+  - intros e [].
+  - exists []. split; [constructor|split; [constructor|]]. intros i vs H. cbn in H. rewrite vget_nil in H. discriminate.
+  - unfold FIX. lia.
+Qed.
+
+Lemma counters_init : counters_ok t_init 0.
+Proof.
+  split; [cbn; lia|split; [|cbn; lia]]. intros i vs H. cbn in H. rewrite vget_nil in H. discriminate.
+Qed.
+
+Theorem tstep_safe : forall s o n, TInv s -> counters_ok s n -> n < HMAX -> op_ok s o ->
+  exists s' out, tstep s o = Some (s', out) /\ TInv s' /\ counters_ok s' (n + 1).
+Proof.
+  intros s o n I C Hn Hop. assert (C' : counters_ok s (n + 1)) by (eapply counters_mono; [eassumption|lia]).
+  destruct o as [ns cb|dur cb|ns cb|ns cb|kref slot g|kref slot g ns|kref slot g|kref slot g|kref slot g ns|kref slot g|kref slot g|ns| |ns|ns maxdur pend| |v|slot v];
+    cbn [tstep op_ok] in *; unfold inst_ok in *.
+  - (* OAdd *)
+    destruct (add_fixed_ok s ns cb n I C Hn Hop) as [[_ E]|(_ & E & I' & C2 & _)].
+    + destruct (add_max_ok s ns cb n I C Hn Hop) as (s1 & i & g & _ & _ & E2 & I2 & C2 & _).
+      rewrite E, E2. cbn. eauto.
+    + rewrite E. cbn. eauto.
+  - (* OAfter *)
+    destruct Hop as [_ Hop].
+    destruct (add_fixed_ok s (cnow s + dur) cb n I C Hn Hop) as [[_ E]|(_ & E & I' & C2 & _)].
+    + destruct (add_max_ok s (cnow s + dur) cb n I C Hn Hop) as (s1 & i & g & _ & _ & E2 & I2 & C2 & _).
+      rewrite E, E2. cbn. eauto.
+    + rewrite E. cbn. eauto.
+  - destruct (add_max_ok s ns cb n I C Hn Hop) as (s1 & i & g & _ & _ & E2 & I2 & C2 & _). rewrite E2. cbn. eauto.
+  - destruct (add_min_ok s ns cb n I C Hn Hop) as (s1 & i & g & _ & _ & E2 & I2 & C2 & _). rewrite E2. cbn. eauto.
+  - (* ODel *)
+    destruct (Z.lt_ge_cases slot FIX) as [L|L].
+    + unfold del_fixed, DEL_FIXED_BIT. destruct (Z.ltb_spec slot 2147483648) as [_|L']; [|unfold FIX in L; lia].
+      destruct (del_max_ok s slot g n I C Hn) as [(vs & e & c & cb & s' & _ & _ & _ & E & F)|[_ E]]; rewrite E; cbn.
+      * destruct F as (_ & I' & C2 & _). eauto.
+      * eauto.
+    + destruct (del_fixed_ok s slot g I L) as [(cb & l1 & e & l2 & _ & _ & _ & _ & E & I' & _)|[_ E]]; rewrite E; cbn.
+      * exists (set_queue s (l1 ++ l2)), (RBool true). split; [reflexivity|split; [assumption|]].
+        destruct C' as (A & B & D). split; [exact A|split; [exact B|exact D]].
+      * eauto.
+  - (* OModMax *)
+    destruct (mod_max_ok s slot g ns n I C Hop) as [(vs & e & c & _ & _ & _ & E & I' & C2)|[_ E]]; rewrite E; cbn.
+    + eexists _, _. split; [reflexivity|split; [assumption|eapply counters_mono; [eassumption|lia]]].
+    + eauto.
+  - (* ODelMax *)
+    destruct (del_max_ok s slot g n I C Hn) as [(vs & e & c & cb & s' & _ & _ & _ & E & F)|[_ E]]; rewrite E; cbn.
+    + destruct F as (_ & I' & C2 & _). eauto.
+    + eauto.
+  - eauto.
+  - (* OModMin *)
+    destruct (mod_min_ok s slot g ns n I C Hop) as [(vs & e & c & _ & _ & _ & [(_ & _ & cb & r & _ & _ & E & I' & C2 & _)|[(_ & _ & E & I' & C2)|(_ & E)]])|[_ E]];
+      rewrite E; cbn.
+    + eexists _, _. split; [reflexivity|split; [assumption|eapply counters_mono; [eassumption|lia]]].
+    + eexists _, _. split; [reflexivity|split; [assumption|eapply counters_mono; [eassumption|lia]]].
+    + eauto.
+    + eauto.
+  - (* ODelMin *)
+    destruct (del_min_ok s slot g n I C Hn) as [(vs & e & c & cb & s' & _ & _ & _ & E & F)|[_ E]]; rewrite E; cbn.
+    + destruct F as (_ & I' & C2 & _). eauto.
+    + eauto.
+  - eauto.
+  - (* ORun *)
+    destruct (Z.gtb_spec ns (cnow s)) as [L|L].
+    + destruct (advance_ok s ns n I C Hn ltac:(lia)) as (s' & f & E & I' & C2 & _). rewrite E. cbn. eauto.
+    + eauto.
+  - (* ONextExpiry *)
+    pose proof (next_expiry_ok s I) as E. destruct (queue s); rewrite E; cbn; eauto.
+  - pose proof (next_expiry_ok s I) as E. destruct (queue s); rewrite E; cbn; eauto.
+  - destruct pend; [eauto|]. pose proof (next_expiry_ok s I) as E. destruct (queue s); rewrite E; cbn; eauto.
+  - eauto.
+  - contradiction.
+  - contradiction.
+Qed.
+
+(** every history of admissible operations shorter than HMAX runs without a panic, and the
+    invariant holds in every state it passes through *)
+Fixpoint ops_ok (s : tstate) (ops : list top) : Prop :=
+  match ops with
+  | [] => True
+  | o :: r => op_ok s o /\ match tstep s o with Some (s1, _) => ops_ok s1 r | None => True end
+  end.
+
+Theorem trun_safe : forall ops s n, TInv s -> counters_ok s n -> n + Z.of_nat (length ops) <= HMAX -> ops_ok s ops ->
+  let '(outs, sf) := trun s ops in
+  length outs = length ops /\ Forall (fun o => o <> None) outs /\ TInv sf /\ counters_ok sf (n + Z.of_nat (length ops)).
+Proof.
+  induction ops as [|o r IH]; intros s n I C Hlen Hok.
+  - cbn. split; [reflexivity|split; [constructor|split; [assumption|]]]. replace (n + 0) with n by lia. assumption.
+  - cbn [trun]. destruct Hok as [Ho Hr]. cbn [length] in Hlen.
+    destruct (tstep_safe s o n I C ltac:(lia) Ho) as (s1 & out & E & I1 & C1). rewrite E in *.
+    specialize (IH s1 (n + 1) I1 C1 ltac:(lia) Hr). destruct (trun s1 r) as [l sf].
+    destruct IH as (L & F & If & Cf). cbn [length]. split; [lia|split; [constructor; [discriminate|assumption]|split; [assumption|]]].
+    replace (n + Z.of_nat (S (length r))) with (n + 1 + Z.of_nat (length r)) by lia. assumption.
 Qed.
